@@ -1575,7 +1575,28 @@ pub fn http_method_gate() -> Value {
 					"observed":format!("status {status}, handler ran {ran} time(s)"),"expected": if allowed {"200 and the handler runs once"} else {"refused (405), no handler runs"}});
 			}
 		}
-		json!({"probe":"http_method_gate","disagrees":false,"inputs_tried":tried,"bound":"13 method tokens x one valid JSON call"})
+		// content-type lines as hyper hands them over: missing, single, and several lines with a non-JSON one first
+		let cts: [(&[&str], bool); 6] = [(&["application/json"], true), (&["application/json; charset=utf-8"], true), (&[], false), (&["text/plain"], false),
+			(&["text/plain", "application/json"], false), (&["application/xml", "text/plain", "application/json-rpc"], false)];
+		for (lines, allowed) in cts {
+			tried += 1;
+			let before = calls.load(Ordering::SeqCst);
+			let mut sock = match tokio::net::TcpStream::connect(addr).await { Ok(s) => s, Err(e) => return json!({"probe":"http_method_gate","error":format!("connect: {e}")}) };
+			let ct: String = lines.iter().map(|l| format!("Content-Type: {l}\r\n")).collect();
+			let req = format!("POST / HTTP/1.1\r\nHost: {addr}\r\n{ct}Content-Length: {}\r\nConnection: close\r\n\r\n{body}", body.len());
+			let _ = sock.write_all(req.as_bytes()).await;
+			let mut buf = Vec::new();
+			let _ = tokio::time::timeout(std::time::Duration::from_secs(3), sock.read_to_end(&mut buf)).await;
+			let txt = String::from_utf8_lossy(&buf).to_string();
+			let status: u16 = txt.split_whitespace().nth(1).and_then(|s| s.parse().ok()).unwrap_or(0);
+			let ran = calls.load(Ordering::SeqCst) - before;
+			let ok = if allowed { status == 200 && ran == 1 } else { status == 415 && ran == 0 };
+			if !ok {
+				return json!({"probe":"http_method_gate","disagrees":true,"input":format!("POST with Content-Type header lines {lines:?} and a valid call as body"),
+					"observed":format!("status {status}, handler ran {ran} time(s)"),"expected": if allowed {"200 and the handler runs once"} else {"415, no handler runs"}});
+			}
+		}
+		json!({"probe":"http_method_gate","disagrees":false,"inputs_tried":tried,"bound":"13 method tokens x one valid JSON call; 6 Content-Type header line sets"})
 	})
 }
 
